@@ -14,7 +14,7 @@ if HERE not in sys.path:
 import simgen  # noqa
 
 
-def make_spec(stream, rng):
+def make_spec(stream, rng, edge_index=None):
     """(spec, options) for one case of a stream."""
     opt = {"env": "simpy", "replay": True}
     if stream == "default":
@@ -71,6 +71,29 @@ def make_spec(stream, rng):
             if simgen.feasible(spec):
                 break
         opt["replay"] = True
+    elif stream == "tierback":
+        # an observation is tiered to the cold buffer and later fetched back
+        spec = simgen.gen_spec(rng, pairing=rng.choice(["queue", "queue", "batch"]))
+        spec["delay"] = None
+        mx = max(m["flops"] for m in spec["machines"])
+        unit = rng.choice([1, 2])
+        hot = 100 * unit
+        pv, av, qv = rng.randint(45, 55) * unit, rng.randint(10, 18) * unit, rng.randint(38, 44) * unit
+
+        def ob(name, start, vol, ncomp):
+            dur = rng.choice([d for d in (1, 2, 5) if vol % d == 0] or [1])
+            return {"name": name, "start": start, "duration": dur, "demand": 1, "rate": vol // dur, "ingest_demand": 1,
+                    "workflow": {"nodes": [{"id": 0, "comp": ncomp * mx}], "edges": []}}
+        p = ob("p", 0, pv, rng.randint(30, 45))
+        a = ob("a", p["duration"] + rng.randint(1, 3), av, 2)
+        q = ob("q", a["start"] + a["duration"] + rng.randint(25, 40), qv, 2)
+        spec["observations"] = [p, a, q]
+        spec["total_arrays"] = 3
+        spec["max_ingest"] = max(1, min(spec["max_ingest"], len(spec["machines"])))
+        spec["hot"] = {"capacity": hot, "rate": max(o["rate"] for o in spec["observations"])}
+        spec["cold"] = {"capacity": hot, "rate": rng.choice([5, 10, 20])}
+        if spec["scheduling"]["kind"] == "batch":
+            spec["scheduling"] = {"kind": "batch", "partitions": 1, "min": 1, "split": None}
     elif stream == "samestep":
         spec = simgen.gen_spec(rng)
         if len(spec["observations"]) < 2:
@@ -112,7 +135,13 @@ def make_spec(stream, rng):
         spec = simgen.gen_spec(rng, pairing=rng.choice(["queue", "batch", "queue", "dynamic"]))
         spec["delay"] = None
         obs = spec["observations"]
-        which = rng.choice(["threshold", "threshold2", "hotfit", "coldfit", "machines", "ingestlimit", "arrays", "rate"])
+        kinds = ["threshold", "handover", "threshold2", "hotfit", "coldfit", "machines", "ingestlimit", "arrays", "rate"]
+        which = kinds[edge_index % len(kinds)] if edge_index is not None else rng.choice(kinds)
+        obs.sort(key=lambda o: o["start"])
+        if len(obs) < 2 and which in ("threshold2", "hotfit", "ingestlimit", "arrays", "handover"):
+            obs.append(dict(obs[0], name="b", start=obs[0]["start"] + 1,
+                            workflow=simgen.gen_workflow(rng, 4, [m["flops"] for m in spec["machines"]])))
+            spec["observations"] = obs
         nm = len(spec["machines"])
         for o in obs:
             o["demand"] = 1
@@ -168,6 +197,22 @@ def make_spec(stream, rng):
             spec["total_arrays"] = a["demand"] + b["demand"]
         elif which == "rate":
             spec["hot"]["rate"] = max(o["rate"] for o in obs)
+        elif which == "handover" and len(obs) >= 2:
+            # x starts in exactly the step y finishes, fills the telescope, and is listed first
+            y, x = obs[0], obs[1]
+            x["start"] = y["start"] + y["duration"]
+            y["demand"] = rng.randint(1, 3)
+            x["demand"] = rng.randint(1, 3)
+            spec["total_arrays"] = x["demand"] + y["demand"] if rng.random() < 0.7 else x["demand"] + y["demand"] + 1
+            nm2 = len(spec["machines"])
+            x["ingest_demand"] = y["ingest_demand"] = 1
+            spec["max_ingest"] = max(2, spec["max_ingest"])
+            if nm2 < 2:
+                spec["machines"].append({"id": "mx", "flops": 10, "bw": 2})
+            rest = obs[2:]
+            for k, o in enumerate(rest):
+                o["start"] = x["start"] + x["duration"] + 2 + 3 * k
+            spec["observations"] = obs = [x, y] + rest
         for o in obs:
             o["ingest_demand"] = min(o["ingest_demand"], spec["max_ingest"], nm)
         if which not in ("threshold", "threshold2", "hotfit", "coldfit"):
@@ -189,8 +234,10 @@ def make_spec(stream, rng):
         raise ValueError(stream)
     sk = spec["scheduling"]
     if sk.get("split"):
+        names = [o["name"] for o in spec["observations"]]
         for o in spec["observations"]:
             sk["split"].setdefault(o["name"], [1, len(spec["machines"])])
+        sk["split"] = {n: v for n, v in sk["split"].items() if n in names}
     return spec, opt
 
 
@@ -281,7 +328,7 @@ def run_case(job):
         rng = random.Random("%s-%s" % (stream, seed))
         if stream in ("runlevel", "runlevel-paused"):
             return run_runlevel(stream, seed, rng, props)
-        spec, opt = make_spec(stream, rng)
+        spec, opt = make_spec(stream, rng, edge_index=seed)
         mprops = None
         if opt["env"] == "chaotic":
             # order-dependent clauses are stated for SimPy's order only
